@@ -171,3 +171,8 @@ Definition first_offence (init : option status) (txs : list tx) : option (nat * 
    transaction; all of them when the history is possible *)
 Definition possible_rows (init : option status) (txs : list tx) : list (tx * Qc) :=
   concat (fst (walk (spec_init init) [] txs)).
+
+(* the effective rows of the first [i] input rows (each input row followed by
+   the adjustments generated for it) *)
+Definition rows_before (init : option status) (txs : list tx) (i : nat) : list (tx * Qc) :=
+  concat (firstn i (fst (walk (spec_init init) [] txs))).
